@@ -58,7 +58,12 @@ def step (_ : Unit) (line : String) : Unit × String :=
         ((if up then ua else la)[bd.sols.length]?).getD none
       let r := evalLoop (fun a => ws.contains a) pw conv (lo == "t") oracle (la.length + ua.length + 1) Border.init Border.init
       let order := String.ofList (r.2.map (fun st => if st.1 then 'U' else 'L'))
-      let tie := (r.2.drop 1).any (fun st => match st.2.1, st.2.2 with | some l, some u => l == u | _, _ => false)
+      -- a tie, or a near tie (relative difference below 1e-9): the implementation compares floats
+      let near : Rat → Rat → Bool := fun l u =>
+        let d := if l ≤ u then u - l else l - u
+        let m := max (if l < 0 then -l else l) (if u < 0 then -u else u)
+        d * 1000000000 ≤ m
+      let tie := (r.2.drop 1).any (fun st => match st.2.1, st.2.2 with | some l, some u => near l u | _, _ => false)
       rRes r.1 ++ " | " ++ order ++ " | " ++ (if tie then "tie" else "notie")
     | _, _, _, _, _ => "bad-op"
   | _ => "bad-op")
